@@ -627,6 +627,12 @@ func (c *FnCtx) havocMapRow(st *State, mv Val) {
 		return
 	}
 	key := mapKeyOf(mv.T)
+	// type safety: a non-nil map value of static type T refers to a map object of type T (the same
+	// fact is assumed wherever the program loads a map); it separates this map's length cell from
+	// the length cells of maps of other types, which share one array
+	if tid := c.refTypeID(mv.T); tid != "" {
+		st.assume(or(eq(mv.S, "0"), eq("(rtype "+mv.S+")", tid)))
+	}
 	dn := arrName("D", key, "", "Bool")
 	c.heapSet(st, dn, sto(c.heapGet(st.heap, dn), mv.S, c.fresh("havoc.dom", "(Array Int Bool)")))
 	ln := arrName("L", "", "", "Int")
